@@ -108,7 +108,10 @@ D_GE     == DefEnum("GE", FALSE, FALSE, <<>>, <<>>, <<"A", "B">>,
 D_DC     == DefStruct("DC", FALSE, FALSE, <<>>, <<[name |-> "N", ck |-> "usize"]>>, <<>>,
                       <<GF("a", CArray(1, U32)), GF("s", StringT)>>)
 
-CoreDefs == <<D_ZPad, D_ZA16, D_ZUnit, D_ZNest, D_ZArr, D_ZT, D_ZE, D_ZEP, D_ZPh, D_ZC,
+D_G3     == DefStruct("G3", FALSE, FALSE, <<>>, <<>>, <<"A", "B", "C">>,
+                      <<GF("a", Param(1)), GF("b", Param(2)), GF("c", Param(3))>>)
+
+CoreDefs == <<D_G3, D_ZPad, D_ZA16, D_ZUnit, D_ZNest, D_ZArr, D_ZT, D_ZE, D_ZEP, D_ZPh, D_ZC,
               D_DS, D_DZ, D_DT, D_DE, D_G, D_G2, D_GE, D_DC>>
 
 ZPad == Inst(D_ZPad, <<>>, <<>>)    ZA16 == Inst(D_ZA16, <<>>, <<>>)
@@ -121,6 +124,7 @@ DT == Inst(D_DT, <<>>, <<>>)        DE == Inst(D_DE, <<>>, <<>>)
 G(a) == Inst(D_G, <<a>>, <<>>)      G2(a) == Inst(D_G2, <<a>>, <<>>)
 GE(a, b) == Inst(D_GE, <<a, b>>, <<>>)
 DCn(n) == Inst(D_DC, <<>>, <<n>>)
+G3(a, b, c) == Inst(D_G3, <<a, b, c>>, <<>>)
 
 ---------------------------------------------------------------------------
 (* Key(T): the Rust type expression; the name under which the harness      *)
@@ -200,12 +204,20 @@ SerOnly(S) == {Slice(t) : t \in {x \in S : ElemOk(x)}}
               \cup {G(Slice(t)) : t \in {x \in S : ElemOk(x)}}
               \cup {G(SerIter(t)) : t \in {x \in S : ElemOk(x) /\ IsZeroCopyTrait(x)}}
 
+\* nested types in which an ε-copied (borrowed) sequence is followed by more data
+U128 == Prim("u128")
+Nested ==
+  {Vec(Vec(U16)), Vec(Vec(U64)), Vec(Vec(U128)), Vec(Vec(ZPad)), Vec(BoxSlice(U32)), BoxSlice(Vec(ZA16)),
+   Array(3, Vec(U32)), Vec(Option(Vec(U64))), Option(Vec(Vec(U16))), Vec(G(Vec(U32))),
+   G3(Vec(U32), Vec(U64), StringT), G3(Vec(U16), BoxSlice(ZPad), Vec(U8)), G3(StringT, Vec(U128), Vec(ZA16)),
+   G3(Vec(U64), U8, Vec(U32)), GE(Vec(U32), Vec(U64))}
+
 \* Named universes.  An operator with a parameter, on purpose: TLC evaluates every
 \* zero-arity constant definition at start-up, and the big closures cost minutes.
 TypesOf(name) ==
-  CASE name = "small1" -> Close(LeavesSmall, CfSmall)
-    [] name = "quick1" -> Close(LeavesQuick, CfSmall)
-    [] name = "full1"  -> Close(LeavesFull, CfSmall)
+  CASE name = "small1" -> Close(LeavesSmall, CfSmall) \cup Nested
+    [] name = "quick1" -> Close(LeavesQuick, CfSmall) \cup Nested
+    [] name = "full1"  -> Close(LeavesFull, CfSmall) \cup Nested
     [] name = "small2" -> Close(Close(LeavesSmall, CfSmall), CfSmall)
     [] name = "all"    -> Close(LeavesFull, CfSmall) \cup Close(Close(LeavesSmall, CfSmall), CfSmall)
     [] name = "tiny"   -> {Vec(ZPad), G(Vec(U32)), Option(StringT), DE, ZEP, Array(3, ZA16)}
